@@ -259,7 +259,7 @@ def explore(make_bodies, sched_files, bound, on_execution, opcode_funcs=(), max_
     """Enumerate every schedule with at most `bound` preemptions.
     make_bodies() -> (bodies, ctx) builds fresh thread bodies (fresh classes / state) per execution;
     on_execution(sched, ctx) judges one finished execution.  Returns dict of counters."""
-    stats = {"executions": 0, "max_points": 0, "deadlocks": 0, "capped": False}
+    stats = {"executions": 0, "max_points": 0, "deadlocks": 0, "capped": False, "contended": 0, "interleaved": 0}
     stack = [[]]
     while stack:
         prefix = stack.pop()
@@ -274,6 +274,11 @@ def explore(make_bodies, sched_files, bound, on_execution, opcode_funcs=(), max_
         stats["max_points"] = max(stats["max_points"], len(s.points))
         if s.deadlock:
             stats["deadlocks"] += 1
+        if any(p.where == "blocked" for p in s.points):
+            stats["contended"] += 1  # some thread really waited for a lock held by another (the threads collided)
+        runs = [p.running for p in s.points if p.running is not None]
+        if sum(1 for a, b in zip(runs, runs[1:]) if a != b) > len(set(runs)) - 1:
+            stats["interleaved"] += 1  # a thread was resumed after another one ran in between
         root = not prefix
         if not (root and shard and shard[0] != 0):
             on_execution(s, ctx)  # the root execution is judged by shard 0 only
